@@ -345,7 +345,7 @@ def motif_unnested_ctx(rng):
             "faults": {"items": {}, "flushes": {}, "ctx": {}}, "prio": gen_prio(rng, kinds)}
 
 
-def motif_sync_then_ctx(rng):
+def motif_sync_then_ctx(rng, ctxs=None):
     """A task makes a synchronous call that needs a flush, then - in the same step - enters a
     context and is suspended inside it while sibling tasks run and batches are flushed."""
     kinds = rng.randint(1, 2)
@@ -353,7 +353,7 @@ def motif_sync_then_ctx(rng):
     def items(m):
         return [["y", ["item", rng.randint(0, kinds - 1), rng.randint(0, 5)]] for _ in range(m)]
     victim = items(rng.randint(0, 1)) + [["s", ["call", 3, []], "call"],
-                                         ["with", rng.choice([["ctx"], ["ctx"], ["sv", 0, 7]]), items(rng.randint(1, 2))]]
+                                         ["with", rng.choice(ctxs or [["ctx"], ["ctx"], ["sv", 0, 7]]), items(rng.randint(1, 2))]]
     sib = items(rng.randint(1, 3))
     calls = [["call", 1, []], ["call", 2, []]]
     rng.shuffle(calls)
